@@ -859,10 +859,10 @@ theorem assembleProps_ok (o : Opts) (props mergeArgs : List Node) (st : St) (hp 
 theorem getPragma_ok (o : Opts) (st : St) (hst : StOk st) : NoJsx (getPragma o st).1 = true ∧ StOk (getPragma o st).2 := by
   unfold getPragma
   split
-  · exact ⟨by simp, hst⟩
   · split
     · exact ⟨by simp, hst⟩
-    · exact importFromVue_ok st _ hst
+    · exact importFromVue_ok _ _ (err_ok st _ hst)
+  · exact importFromVue_ok st _ hst
 
 /-- a tag name as the parser produces it -/
 def TagOk (n : Node) : Bool :=
@@ -936,13 +936,19 @@ theorem buildIife_ok (elems : List Node) (st : St) (he : NoJsxL elems = true) (h
       · exact ⟨by simp [hacc.1, hen], hacc.2⟩
     · exact ⟨rfl, ⟨hst.imports, hst.ton, hst.slotH, hst.vars, hst.consts⟩⟩
 
+theorem slotProps_NoJsx (slots : Option Node) (hs : optOk slots = true) : NoJsxL (slotProps slots) = true := by
+  unfold slotProps
+  split
+  · rename_i as las sp; simpa [optOk, NoJsx, NoJsxL, isJsxSyntax] using hs
+  · rename_i e _; have hne : NoJsx e = true := hs; simp [hne]
+  · rfl
+
 theorem wrapChildren_NoJsx (o : Opts) (elems : List Node) (f : Nat) (slots : Option Node) (he : NoJsxL elems = true)
     (hs : optOk slots = true) : NoJsx (wrapChildren o elems f slots) = true := by
   unfold wrapChildren
+  have hsp := slotProps_NoJsx slots hs
   simp only
-  have hobj : ∀ (as las : List String) (sp : List Node), optOk (some (Node.mk K.object as [Node.mk K.list las sp])) = true → NoJsxL sp = true := by
-    intro as las sp h; simpa [NoJsx, NoJsxL, isJsxSyntax] using h
-  split <;> split <;> (try (have hsp := hobj _ _ _ hs)) <;> (try (have hne : NoJsx _ = true := hs)) <;> simp_all
+  split <;> simp_all [NoJsxL_append]
 
 
 theorem slotHelper_ok (st : St) (hst : StOk st) :
@@ -1013,13 +1019,14 @@ theorem finishChildren_ok (o : Opts) (elems : List Node) (c : Bool) (slots : Opt
       · split
         · exact ⟨wrapChildren_NoJsx o _ f slots he hs, hst⟩
         · exact ⟨by simpa using he, hst⟩
-    · exact ⟨by simp [hne], hst⟩
-    · exact ⟨by simp [hne], hst⟩
-    · -- an object literal: its entries (plus the hint)
+    · exact ⟨by simp [hne, slotProps_NoJsx slots hs], hst⟩
+    · exact ⟨by simp [hne, slotProps_NoJsx slots hs], hst⟩
+    · -- an object literal: its entries, the `v-slots` entries (plus the hint)
       rename_i oas las props
       have hp : NoJsxL props = true := by simpa [NoJsx, NoJsxL, isJsxSyntax] using hne
+      have hsp := slotProps_NoJsx slots hs
       refine ⟨?_, hst⟩
-      split <;> simp [hp]
+      split <;> simp [hp, hsp, NoJsxL_append]
     · split
       · exact ⟨wrapChildren_NoJsx o _ f slots he hs, hst⟩
       · exact ⟨by simpa using he, hst⟩
@@ -1505,22 +1512,11 @@ theorem decoupleVModels_Prep (elems : List Node) (h : NoJsxL elems = true) : Pre
   split at hsome
   · rename_i as0 as1 as2 inner
     have hinner : NoJsxL inner = true := by simpa [NoJsx, NoJsxL, isJsxSyntax] using hne
-    have htd : NoJsxL (inner.take 1 ++ inner.drop 2) = true := by
-      rw [NoJsxL_iff] at hinner ⊢
-      intro y hy
-      simp only [List.mem_append] at hy
-      rcases hy with hy | hy
-      · exact hinner y (List.mem_of_mem_take hy)
-      · exact hinner y (List.mem_of_mem_drop hy)
     simp only [Option.some.injEq] at hsome
     subst hsome
-    -- the generated attribute: `v-model` or `v-model:arg`, value `{[...]}`
+    -- the generated attribute: `v-model`, value `{[...]}`
     have hd1 : isDirectiveAttrName (attrNameOf (nIdentName "v-model")) = true := by decide
-    have hd2 : ∀ a : String, isDirectiveAttrName (attrNameOf (.mk .jsxNsName [] [nIdentName "v-model", nIdentName a])) = true := by
-      intro a
-      simp only [attrNameOf, isDirectiveAttrName, identName, nIdentName, nIdent]
-      decide
-    split <;> simp_all [PrepAttr, ValOk, Option.isSome]
+    simp_all [PrepAttr, ValOk, Option.isSome]
   · simp at hsome
 
 
